@@ -259,8 +259,12 @@ func specCloseCode(code int) int {
 		return 1
 	case code >= 3000 && code <= 4999:
 		return 1
-	case code >= 1012 && code <= 1014:
-		return 0
+	case code == 1012 || code == 1013:
+		// Service Restart / Try Again Later: registered in the IANA WebSocket close
+		// code registry (the one conn.go cites) with public specifications
+		return 1
+	case code == 1014:
+		return 0 // registered later (Bad Gateway): either treatment is accepted
 	}
 	return 2
 }
@@ -418,12 +422,15 @@ func specUTF8ValidT(b []byte) bool {
 // specCloseMustAccept / specCloseMustReject: the property's close-code classes.
 func specCloseMustAccept(code int) bool {
 	a := vfAnd(code >= 1000, code <= 1003)
-	a = vfOr(a, vfAnd(code >= 1007, code <= 1011))
+	// 1012 Service Restart, 1013 Try Again Later: registered in the IANA close code
+	// registry (the one conn.go cites) with public specifications
+	a = vfOr(a, vfAnd(code >= 1007, code <= 1013))
 	a = vfOr(a, vfAnd(code >= 3000, code <= 4999))
 	return a
 }
 
-func specCloseDontcare(code int) bool { return vfAnd(code >= 1012, code <= 1014) }
+// 1014 (Bad Gateway) was registered later: either treatment is accepted
+func specCloseDontcare(code int) bool { return code == 1014 }
 
 func specCloseMustReject(code int) bool {
 	return vfAnd(!specCloseMustAccept(code), !specCloseDontcare(code))
